@@ -832,6 +832,211 @@ Proof.
   rewrite !canon_is_cs. apply reorder_cs, R.
 Qed.
 
+
+(* ---------------------------------------------------------------------------------------- *)
+(* the canonical form determines the value up to member order / duplicate resolution, at any depth *)
+Lemma bt_insert_map {V W} (f : V -> W) k v (acc : list (bytes * V)) :
+  bt_insert k (f v) (map (fun kv => (fst kv, f (snd kv))) acc)
+  = map (fun kv => (fst kv, f (snd kv))) (bt_insert k v acc).
+Proof.
+  induction acc as [|[k' v'] acc IH]; [reflexivity|]. cbn [map bt_insert fst snd].
+  destruct (lex_ltb k k'); [reflexivity|]. destruct (bytes_eqb k k'); [reflexivity|].
+  cbn [map fst snd]. rewrite IH. reflexivity.
+Qed.
+
+Lemma sort_members_map {V W} (f : V -> W) (m : list (bytes * V)) :
+  sort_members (map (fun kv => (fst kv, f (snd kv))) m) = map (fun kv => (fst kv, f (snd kv))) (sort_members m).
+Proof.
+  unfold sort_members.
+  assert (G : forall acc,
+             fold_left (fun a kv => bt_insert (fst kv) (snd kv) a) (map (fun kv => (fst kv, f (snd kv))) m)
+                       (map (fun kv => (fst kv, f (snd kv))) acc)
+             = map (fun kv => (fst kv, f (snd kv)))
+                   (fold_left (fun a kv => bt_insert (fst kv) (snd kv) a) m acc)).
+  { induction m as [|[k v] m IH]; intro acc; [reflexivity|]. cbn [map fold_left fst snd].
+    rewrite bt_insert_map. apply IH. }
+  exact (G []).
+Qed.
+
+Definition unwrap (o : option bytes) : bytes := match o with Some b => b | None => [] end.
+
+Lemma smembers_as_map m es : smembers m = Some es ->
+  es = map (fun kv => (fst kv, unwrap (cs (snd kv)))) m /\ Forall (fun kv => cs (snd kv) <> None) m.
+Proof.
+  revert es; induction m as [|[k x] m IH]; intros es H; cbn [spec_members] in H.
+  - inversion H. split; [reflexivity|constructor].
+  - destruct (cs x) as [b|] eqn:Cx; [|discriminate]. destruct (smembers m) as [r|]; [|discriminate].
+    inversion H; subst. destruct (IH _ eq_refl) as [E F]. split.
+    + cbn [map fst snd]. rewrite Cx. cbn [unwrap]. f_equal. exact E.
+    + constructor; [cbn [snd]; rewrite Cx; discriminate|exact F].
+Qed.
+
+Lemma items_split l1 : forall first l2 body1 body2 r1 r2,
+  sitems first l1 = Some body1 -> sitems first l2 = Some body2 ->
+  body1 ++ 93 :: r1 = body2 ++ 93 :: r2 ->
+  Forall2 (fun x y => exists b, cs x = Some b /\ cs y = Some b) l1 l2.
+Proof.
+  induction l1 as [|x l1 IH]; intros first [|y l2] body1 body2 r1 r2 S1 S2 E; cbn [spec_items] in S1, S2.
+  - constructor.
+  - exfalso. inversion S1; subst. cbn [app] in E.
+    destruct (cs y) as [by_|] eqn:Cy; [|discriminate]. destruct (sitems false l2); [|discriminate].
+    inversion S2; subst. destruct (cs_head _ _ Cy) as (c & t & Eb & K). subst by_.
+    destruct first; cbn [app] in E; inversion E; subst.
+    pose proof (jkind_lt7 _ _ Cy). cbn in K. congruence.
+  - exfalso. inversion S2; subst. cbn [app] in E.
+    destruct (cs x) as [bx|] eqn:Cx; [|discriminate]. destruct (sitems false l1); [|discriminate].
+    inversion S1; subst. destruct (cs_head _ _ Cx) as (c & t & Eb & K). subst bx.
+    destruct first; cbn [app] in E; inversion E; subst.
+    pose proof (jkind_lt7 _ _ Cx). cbn in K. congruence.
+  - destruct (cs x) as [bx|] eqn:Cx; [|discriminate].
+    destruct (sitems false l1) as [t1|] eqn:T1; [|discriminate].
+    destruct (cs y) as [by_|] eqn:Cy; [|discriminate].
+    destruct (sitems false l2) as [t2|] eqn:T2; [|discriminate].
+    inversion S1; inversion S2; subst. clear S1 S2.
+    assert (E' : bx ++ (t1 ++ 93 :: r1) = by_ ++ (t2 ++ 93 :: r2)).
+    { destruct first; cbn [app] in E; rewrite <- ?app_assoc in E; [exact E|].
+      inversion E. reflexivity. }
+    destruct (cs_pf x _ Cx _ _ _ _ Cy E' (sitems_tail_delim _ _ _ T1) (sitems_tail_delim _ _ _ T2)) as [Eb Et].
+    subst by_. constructor.
+    + exists bx. split; assumption.
+    + exact (IH false l2 t1 t2 r1 r2 T1 T2 Et).
+Qed.
+
+Lemma jnorm_obj m : jnorm (JObj m) = JObj (map (fun kv => (fst kv, jnorm (snd kv))) (sort_members m)).
+Proof. cbn [jnorm]. rewrite sort_members_map. reflexivity. Qed.
+
+Theorem cs_injective v1 : forall v2 b, cs v1 = Some b -> cs v2 = Some b -> jnorm v1 = jnorm v2.
+Proof.
+  induction v1 as [| bb | z | | s | l IHl | m IHm] using jv_ind2; intros v2 b H1 H2;
+    destruct (cs_head _ _ H1) as (c1 & t1 & Eb1 & K1); destruct (cs_head _ _ H2) as (c2 & t2 & Eb2 & K2);
+    assert (Ek : jkind v2 = jkind _) by (rewrite <- K1, <- K2; congruence);
+    clear K1 K2 Eb1 Eb2 c1 c2 t1 t2.
+  - destruct v2 as [| [|] | | | | |]; try discriminate. reflexivity.
+  - destruct bb, v2 as [| [|] | | | | |]; try discriminate; reflexivity.
+  - destruct v2 as [| [|] | z2 | | | |]; try discriminate. cbn [canon_spec] in H1, H2.
+    rewrite <- H2 in H1. inversion H1 as [E].
+    destruct (dec_z_prefix z z2 [] []) as [Ez _]; [rewrite !app_nil_r; exact E|exact I|exact I|].
+    subst. reflexivity.
+  - discriminate.
+  - destruct v2 as [| [|] | | | s2 | |]; try discriminate. cbn [canon_spec] in H1, H2.
+    assert (Q : quote s = quote s2) by congruence. apply quote_inj in Q. subst. reflexivity.
+  - destruct v2 as [| [|] | | | | l2 |]; try discriminate. rewrite spec_arr in H1, H2.
+    destruct (sitems true l) as [body1|] eqn:S1; [|discriminate].
+    destruct (sitems true l2) as [body2|] eqn:S2; [|discriminate].
+    inversion H1 as [E1]. rewrite <- E1 in H2. inversion H2 as [E].
+    symmetry in E.
+    pose proof (items_split l true l2 body1 body2 [] [] S1 S2 E) as F.
+    cbn [jnorm]. f_equal. clear S1 S2 E E1 H1 H2.
+    induction F as [|x y l l2 (bx & Cx & Cy) F IH]; [reflexivity|].
+    inversion IHl as [|? ? Hx Hl]; subst. cbn [map]. rewrite (Hx y bx Cx Cy), (IH Hl eq_refl). reflexivity.
+  - destruct v2 as [| [|] | | | | | m2]; try discriminate.
+    destruct (smembers m) as [es1|] eqn:S1; [|rewrite spec_obj, S1 in H1; discriminate].
+    destruct (smembers m2) as [es2|] eqn:S2; [|rewrite spec_obj, S2 in H2; discriminate].
+    pose proof (cs_obj_entries_inj _ _ _ _ _ H1 H2 S1 S2) as E.
+    destruct (smembers_as_map _ _ S1) as [M1 F1]. destruct (smembers_as_map _ _ S2) as [M2 F2].
+    rewrite M1, M2, !(sort_members_map (fun x => unwrap (cs x))) in E. rewrite !jnorm_obj. f_equal.
+    assert (G1 : Forall (fun kv => forall v2 b, cs (snd kv) = Some b -> cs v2 = Some b -> jnorm (snd kv) = jnorm v2)
+                        (sort_members m)).
+    { apply Forall_forall. intros e He. apply In_sort_members in He. rewrite Forall_forall in IHm. exact (IHm e He). }
+    assert (N1 : Forall (fun kv => cs (snd kv) <> None) (sort_members m)).
+    { apply Forall_forall. intros e He. apply In_sort_members in He. rewrite Forall_forall in F1. exact (F1 e He). }
+    assert (N2 : Forall (fun kv => cs (snd kv) <> None) (sort_members m2)).
+    { apply Forall_forall. intros e He. apply In_sort_members in He. rewrite Forall_forall in F2. exact (F2 e He). }
+    clear - E G1 N1 N2. revert E G1 N1 N2. generalize (sort_members m) as A, (sort_members m2) as B.
+    induction A as [|[k1 x1] A IH]; intros [|[k2 x2] B] E G1 N1 N2; cbn [map] in E; try discriminate; [reflexivity|].
+    cbn [fst snd] in E. inversion E as [[Ek Ev Et]].
+    inversion G1 as [|? ? Hx GA]; inversion N1 as [|? ? Nx NA]; inversion N2 as [|? ? Ny NB]; subst.
+    cbn [snd] in *. cbn [map fst snd]. f_equal.
+    + f_equal. destruct (cs x1) as [b1|] eqn:C1; [|contradiction]. destruct (cs x2) as [b2|] eqn:C2; [|contradiction].
+      cbn [unwrap] in Ev. subst b2. exact (Hx x2 b1 eq_refl C2).
+    + exact (IH B Et GA NA NB).
+Qed.
+
+
+(* ... and the sorted value has the same canonical form, so [jnorm] loses nothing *)
+Lemma sorted_nodup {V} (l : list (bytes * V)) : Sorted.StronglySorted klt l -> NoDup (map fst l).
+Proof.
+  induction 1 as [|a l S IH F]; [constructor|]. cbn [map]. constructor; [|exact IH].
+  intro Hin. apply in_map_iff in Hin as (e & Ee & Hin). rewrite Forall_forall in F.
+  pose proof (F e Hin) as K. unfold klt in K. rewrite Ee, lex_ltb_irrefl in K. discriminate.
+Qed.
+
+Lemma sort_members_idem {V} (es : list (bytes * V)) : sort_members (sort_members es) = sort_members es.
+Proof.
+  assert (S1 : Sorted.StronglySorted klt (sort_members es))
+    by (apply Sorted.Sorted_StronglySorted; [exact klt_trans|apply sort_members_sorted]).
+  apply sorted_perm_eq.
+  - apply Sorted.Sorted_StronglySorted; [exact klt_trans|apply sort_members_sorted].
+  - exact S1.
+  - apply Permutation_sym, sort_members_perm, sorted_nodup, S1.
+Qed.
+
+Lemma sitems_some l : forall first body, sitems first l = Some body -> Forall (fun x => cs x <> None) l.
+Proof.
+  induction l as [|x l IH]; intros first body H; [constructor|]. cbn [spec_items] in H.
+  destruct (cs x) eqn:Cx; [|discriminate]. destruct (sitems false l) eqn:T; [|discriminate].
+  constructor; [rewrite Cx; discriminate|exact (IH _ _ T)].
+Qed.
+
+Lemma smembers_of_some m : Forall (fun kv => cs (snd kv) <> None) m ->
+  smembers m = Some (map (fun kv => (fst kv, unwrap (cs (snd kv)))) m).
+Proof.
+  induction 1 as [|[k x] m Hx Hm IH]; [reflexivity|]. cbn [spec_members map fst snd] in *.
+  destruct (cs x); [|contradiction]. rewrite IH. reflexivity.
+Qed.
+
+Theorem jnorm_cs v : forall b, cs v = Some b -> cs (jnorm v) = Some b.
+Proof.
+  induction v as [| bb | z | | s | l IHl | m IHm] using jv_ind2; intros b H; try exact H.
+  - rewrite <- H. cbn [jnorm]. apply canon_spec_arr_ext. rewrite spec_arr in H.
+    destruct (sitems true l) as [body|] eqn:S; [|discriminate]. pose proof (sitems_some _ _ _ S) as F.
+    clear - IHl F. induction l as [|x l IH]; [constructor|]. inversion IHl; inversion F; subst. cbn [map].
+    constructor; [|apply IH; assumption].
+    destruct (cs x) as [bx|] eqn:Cx; [|contradiction]. auto.
+  - rewrite jnorm_obj. destruct (smembers m) as [es|] eqn:S; [|rewrite spec_obj, S in H; discriminate].
+    destruct (smembers_as_map _ _ S) as [M F].
+    assert (FS : Forall (fun kv => cs (snd kv) <> None) (sort_members m)).
+    { apply Forall_forall. intros e He. apply In_sort_members in He. rewrite Forall_forall in F. exact (F e He). }
+    transitivity (cs (JObj (sort_members m))).
+    + apply canon_spec_obj_ext.
+      assert (G : Forall (fun kv => forall b, cs (snd kv) = Some b -> cs (jnorm (snd kv)) = Some b) (sort_members m)).
+      { apply Forall_forall. intros e He. apply In_sort_members in He. rewrite Forall_forall in IHm. exact (IHm e He). }
+      clear - G FS. induction (sort_members m) as [|[k x] A IH]; [constructor|].
+      inversion G; inversion FS; subst. cbn [map fst snd] in *. constructor; [|apply IH; assumption].
+      split; [reflexivity|]. cbn [fst snd]. destruct (cs x) as [bx|] eqn:Cx; [|contradiction]. auto.
+    + rewrite <- H, !spec_obj, S, (smembers_of_some _ FS).
+      rewrite <- (sort_members_map (fun x => unwrap (cs x))), <- M, sort_members_idem. reflexivity.
+Qed.
+
+Theorem canonical_form_determines_value v1 v2 b : cs v1 = Some b ->
+  (cs v2 = Some b <-> (jnorm v2 = jnorm v1 /\ cs v2 <> None)).
+Proof.
+  intro H1. split.
+  - intro H2. split; [symmetry; exact (cs_injective v1 v2 b H1 H2)|rewrite H2; discriminate].
+  - intros [E N]. destruct (cs v2) as [b2|] eqn:C2; [|contradiction].
+    pose proof (jnorm_cs _ _ H1) as A. pose proof (jnorm_cs _ _ C2) as B. rewrite E, A in B. congruence.
+Qed.
+
+
+(* what is used is the signed value itself, up to member order *)
+Theorem same_signed_same_value sch b j1 j2 :
+  accepts sch b j1 = true -> accepts sch b j2 = true ->
+  exists r1 r2, project sch j1 = Some r1 /\ project sch j2 = Some r2 /\ jnorm r1 = jnorm r2.
+Proof.
+  intros H1 H2. apply accepts_spec in H1 as (r1 & E1 & C1). apply accepts_spec in H2 as (r2 & E2 & C2).
+  exists r1, r2. split; [exact E1|]. split; [exact E2|]. exact (cs_injective r1 r2 b C1 C2).
+Qed.
+
+(* any change that alters the retained value makes the document unacceptable *)
+Theorem mutation_rejected sch b j j' r r' :
+  accepts sch b j = true -> project sch j = Some r -> project sch j' = Some r' ->
+  jnorm r' <> jnorm r -> accepts sch b j' = false.
+Proof.
+  intros H Pj Pj' Ne. destruct (accepts sch b j') eqn:A; [|reflexivity]. exfalso.
+  destruct (same_signed_same_value sch b j j' H A) as (x & y & Ex & Ey & En).
+  rewrite Pj in Ex. rewrite Pj' in Ey. inversion Ex; inversion Ey; subst. apply Ne. symmetry. exact En.
+Qed.
+
 (* ---------------------------------------------------------------------------------------- *)
 (* finding F7: the two structs without catch-all *)
 Definition n_delegations : bytes := bs "delegations".
